@@ -6,13 +6,13 @@
    compio-signal/src/unix/mod.rs
      signal(sig) first poll = SignalListener::new           PollCall (listener "new")
        register: HANDLER.write(), Slab::clone + insert      RLock
-                 guard.store(new)                           WSwap WSeen WGenInc WCheck WFree  (half_lock.rs)
+                 guard.store(new)                           WSwap WSeen WGenInc WFree  (half_lock.rs)
                  signal::signal(sig, Handler(..))           RSigaction   (fails for SIGKILL/SIGSTOP: RegFailed)
                  guard dropped                              RUnlock
      event.wait() = synchrony AsyncFlag::poll               PChk1 PReg PChk2   (flag, AtomicWaker register, flag)
      SignalListener::drop = unregister                      ULock (clone + remove + need_uninit)
                  signal::signal(sig, SigDfl)                UDfl         (before the store, as in the code)
-                 handler.store(new)                         WSwap WSeen WGenInc WCheck WFree
+                 handler.store(new)                         WSwap WSeen WGenInc WFree
                  guard dropped                              UUnlock
      extern "C" fn signal_handler                           HStart (the kernel invokes it on thread `on`)
        HANDLER.read()                                       HLoadGen HLockInc HLoadData
@@ -30,28 +30,43 @@
 EXTENDS Naturals, Sequences, FiniteSets, TLC
 
 CONSTANTS Threads,          \* threads that own listeners (subset of Nat \ {0})
-          NL,               \* listeners 1..NL
-          LSig, LHome,      \* functions on 1..NL (overridden by operators in the cfg)
+          Layouts,          \* set of listener layouts [sig |-> <<..>>, home |-> <<..>>]; one is chosen in Init
+          Muts,             \* set of model mutations; one is chosen in Init ("none" = the code as it is)
           Sigs,             \* catchable signals
           BadSigs,          \* signals for which sigaction fails (SIGKILL, SIGSTOP)
           MaxRaise,         \* number of handler invocations
+          RaiseOn,          \* threads a handler may be invoked on (subset of Threads \cup {0})
           SpuriousPolls,    \* TRUE: a pending listener may be polled without having been woken
           FixLeak,
-          MutNoFilter, MutFirstOnly, MutNoRecheck, MutDflAlways, MutNoBarrier, MutNoDfl
+          MaxNL             \* largest number of listeners of any layout (for the fairness quantifier)
 
-\* listener layouts used by the configurations (cfg files cannot hold tuples)
-LSig_aab == <<"a", "a", "b">>
-LSig_aa == <<"a", "a">>
-LSig_ab == <<"a", "b">>
-LSig_aak == <<"a", "a", "k">>
-LSig_ak == <<"a", "k">>
-LSig_aaa == <<"a", "a", "a">>
-LSig_aabb == <<"a", "a", "b", "b">>
-LHome_122 == <<1, 2, 2>>
-LHome_121 == <<1, 2, 1>>
-LHome_12 == <<1, 2>>
-LHome_11 == <<1, 1>>
-LHome_1212 == <<1, 2, 1, 2>>
+\* listener layouts and mutation sets used by the configurations (cfg files cannot hold tuples)
+L(sg, hm) == [sig |-> sg, home |-> hm]
+LayoutsQuick == {L(<<"a", "a">>, <<1, 2>>), L(<<"a", "b">>, <<1, 1>>), L(<<"a", "k">>, <<1, 2>>)}
+LayoutsTwoRaise == {L(<<"a", "a">>, <<1, 2>>), L(<<"a", "b">>, <<1, 2>>)}
+LayoutsThree == {L(<<"a", "a", "b">>, <<1, 2, 2>>), L(<<"a", "a", "a">>, <<1, 2, 1>>), L(<<"a", "k", "a">>, <<1, 1, 2>>)}
+LayoutsLive == {L(<<"a", "a">>, <<1, 2>>), L(<<"a", "b">>, <<1, 1>>)}
+LayoutsCtl == {L(<<"a", "a">>, <<1, 2>>), L(<<"a", "b">>, <<1, 2>>)}
+LayoutsBad == {L(<<"a", "k">>, <<1, 2>>)}
+MutsNone == {"none"}
+LayoutsGenQuick == {L(<<"a", "a">>, <<1, 2>>), L(<<"a", "b">>, <<1, 1>>), L(<<"a", "k">>, <<2, 1>>)}
+LayoutsGenRt == {L(<<"a", "a">>, <<1, 2>>), L(<<"a", "b">>, <<1, 2>>), L(<<"a", "a", "b">>, <<1, 1, 2>>)}
+LayoutsGenThree == {L(<<"a", "a", "b">>, <<1, 2, 2>>), L(<<"a", "a", "a">>, <<1, 2, 1>>), L(<<"a", "k", "a">>, <<1, 1, 2>>),
+                    L(<<"a", "b", "a">>, <<1, 1, 1>>)}
+MutsNoRecheck == {"norecheck"}
+LayoutsOne == {L(<<"a">>, <<1>>)}
+MutsAll == {"nofilter", "firstonly", "dflalways", "nobarrier", "nodfl"}
+
+VARIABLES lay, mut
+NL == Len(lay.sig)
+LSig == lay.sig
+LHome == lay.home
+MutNoFilter == mut = "nofilter"
+MutFirstOnly == mut = "firstonly"
+MutNoRecheck == mut = "norecheck"
+MutDflAlways == mut = "dflalways"
+MutNoBarrier == mut = "nobarrier"
+MutNoDfl == mut = "nodfl"
 
 Listeners == 1..NL
 Handlers == 1..MaxRaise
@@ -72,7 +87,7 @@ lv == <<lst, flag, wreg, wakes, wokenp, key, cancelled, failed>>
 tv == <<tpc, tl, top, wctx, wnew, wold>>
 hv == <<hpc, hsig, hon, hslot, hptr, hpos>>
 gv == <<must, xsig>>
-vars == <<hl, disp, lv, tv, hv, gv>>
+vars == <<lay, mut, hl, disp, lv, tv, hv, gv>>
 
 (* ------------------------------- slab::Slab ------------------------------ *)
 Occ(l, s) == [l |-> l, s |-> s, n |-> 0]
@@ -92,6 +107,7 @@ Active(h) == hpc[h] \notin {"idle", "done"}
 Suspended(t) == \E h \in Handlers : Active(h) /\ hon[h] = t
 
 Init ==
+  /\ lay \in Layouts /\ mut \in Muts
   /\ ver = [v \in VerIds |-> IF v = 0 THEN EmptySlab ELSE DeadSlab]
   /\ data = 0 /\ alive = {0} /\ gen = 0 /\ lock = [i \in Slots |-> 0] /\ mutex = 0
   /\ seen = [i \in Slots |-> FALSE] /\ pass = 0 /\ wslot = 0
@@ -170,26 +186,24 @@ WSwap(t) ==
   /\ tpc' = [tpc EXCEPT ![t] = IF MutNoBarrier THEN "free" ELSE "seen"]
   /\ UNCHANGED <<gen, lock, mutex, disp, lv, tl, top, wctx, wnew, hv, gv>>
 
-\* write_barrier: update_seen, one load per slot
+\* write_barrier: update_seen, one load per slot; after the load of slot 1 the loop condition
+\* `!seen_zero.all()` is evaluated (first round: the generation switch comes first)
 WSeen(t) ==
   /\ tpc[t] = "seen" /\ ~Suspended(t)
-  /\ seen' = [seen EXCEPT ![wslot] = @ \/ lock[wslot] = 0]
-  /\ (IF wslot = 0
-        THEN wslot' = 1 /\ UNCHANGED <<tpc, pass>>
-        ELSE /\ wslot' = 0 /\ pass' = 1
-             /\ tpc' = [tpc EXCEPT ![t] = IF pass = 0 THEN "geninc" ELSE "check"])
+  /\ LET s2 == [seen EXCEPT ![wslot] = @ \/ lock[wslot] = 0] IN
+       /\ seen' = s2
+       /\ (IF wslot = 0
+             THEN wslot' = 1 /\ UNCHANGED <<tpc, pass>>
+             ELSE /\ wslot' = 0 /\ pass' = 1
+                  /\ tpc' = [tpc EXCEPT ![t] = IF pass = 0 THEN "geninc"
+                                                ELSE IF s2[0] /\ s2[1] THEN "free" ELSE "seen"])
   /\ UNCHANGED <<ver, data, alive, gen, lock, mutex, disp, lv, tl, top, wctx, wnew, wold, hv, gv>>
 
 WGenInc(t) ==
   /\ tpc[t] = "geninc" /\ ~Suspended(t)
   /\ gen' = 1 - gen
-  /\ tpc' = [tpc EXCEPT ![t] = "check"]
-  /\ UNCHANGED <<ver, data, alive, lock, mutex, seen, pass, wslot, disp, lv, tl, top, wctx, wnew, wold, hv, gv>>
-
-WCheck(t) ==
-  /\ tpc[t] = "check" /\ ~Suspended(t)
   /\ tpc' = [tpc EXCEPT ![t] = IF seen[0] /\ seen[1] THEN "free" ELSE "seen"]
-  /\ UNCHANGED <<hl, disp, lv, tl, top, wctx, wnew, wold, hv, gv>>
+  /\ UNCHANGED <<ver, data, alive, lock, mutex, seen, pass, wslot, disp, lv, tl, top, wctx, wnew, wold, hv, gv>>
 
 \* drop(Box::from_raw(old))
 WFree(t) ==
@@ -257,9 +271,13 @@ UUnlock(t) ==
   /\ UNCHANGED <<ver, data, alive, gen, lock, seen, pass, wslot, disp, flag, wreg, wakes, wokenp, key,
                  cancelled, failed, tl, top, wctx, wnew, wold, hv, gv>>
 
+Const == UNCHANGED <<lay, mut>>
 ThreadStep(t) ==
-  \/ RLock(t) \/ ULock(t) \/ UDfl(t) \/ WSwap(t) \/ WSeen(t) \/ WGenInc(t) \/ WCheck(t) \/ WFree(t)
-  \/ RSigaction(t) \/ RegFailed(t) \/ RUnlock(t) \/ PChk1(t) \/ PReg(t) \/ PChk2(t) \/ UUnlock(t)
+  /\ Const
+  /\ \/ RLock(t) \/ ULock(t) \/ UDfl(t) \/ WSwap(t) \/ WSeen(t) \/ WGenInc(t) \/ WFree(t)
+     \/ RSigaction(t) \/ RegFailed(t) \/ RUnlock(t) \/ PChk1(t) \/ PReg(t) \/ PChk2(t) \/ UUnlock(t)
+Poll(t, l) == Const /\ PollCall(t, l)
+Drop(t, l) == Const /\ DropCall(t, l)
 
 (* ------------------------- the signal handler ---------------------------- *)
 \* The kernel runs signal_handler(sig) on thread `on` (any thread that does not block the signal;
@@ -300,6 +318,7 @@ HLoadData(h) ==
 \* one step of the iteration over the table the guard points to: skip, or flag.swap(true)
 HIter(h) ==
   /\ hpc[h] = "iter"
+  /\ hptr[h] \in alive          \* otherwise use after free (Safe is violated in this state): undefined
   /\ LET sl == ver[hptr[h]] IN
        IF hpos[h] > Len(sl.ent)
          THEN /\ hpc' = [hpc EXCEPT ![h] = "dec"]
@@ -317,6 +336,7 @@ HIter(h) ==
 \* AtomicWaker::take + Waker::wake (the waker of the task that polled last, if it is still there)
 HWake(h) ==
   /\ hpc[h] = "wake"
+  /\ hptr[h] \in alive
   /\ LET l == ver[hptr[h]].ent[hpos[h]].l IN
        /\ wreg' = [wreg EXCEPT ![l] = FALSE]
        /\ wakes' = [wakes EXCEPT ![l] = IF wreg[l] THEN @ + 1 ELSE @]
@@ -331,12 +351,15 @@ HUnlock(h) ==
   /\ hpc' = [hpc EXCEPT ![h] = "done"]
   /\ UNCHANGED <<ver, data, alive, gen, mutex, seen, pass, wslot, disp, lv, tv, hsig, hon, hslot, hptr, hpos, gv>>
 
-HandlerStep(h) == HLoadGen(h) \/ HLockInc(h) \/ HLoadData(h) \/ HIter(h) \/ HWake(h) \/ HUnlock(h)
+HandlerStep(h) ==
+  /\ Const
+  /\ (HLoadGen(h) \/ HLockInc(h) \/ HLoadData(h) \/ HIter(h) \/ HWake(h) \/ HUnlock(h))
+Raise(h, s, on) == Const /\ HStart(h, s, on)
 
 Next ==
-  \/ \E t \in Threads, l \in Listeners : PollCall(t, l) \/ DropCall(t, l)
+  \/ \E t \in Threads, l \in Listeners : Poll(t, l) \/ Drop(t, l)
   \/ \E t \in Threads : ThreadStep(t)
-  \/ \E h \in Handlers, s \in Sigs, on \in AllThreads : HStart(h, s, on)
+  \/ \E h \in Handlers, s \in Sigs, on \in RaiseOn : Raise(h, s, on)
   \/ \E h \in Handlers : HandlerStep(h)
 
 Spec == Init /\ [][Next]_vars
@@ -345,7 +368,7 @@ Spec == Init /\ [][Next]_vars
 Fair ==
   /\ \A t \in Threads : WF_vars(ThreadStep(t))
   /\ \A h \in Handlers : WF_vars(HandlerStep(h))
-  /\ \A l \in Listeners : WF_vars(wokenp[l] /\ PollCall(LHome[l], l))
+  /\ \A l \in 1..MaxNL : WF_vars(l \in Listeners /\ wokenp[l] /\ Poll(LHome[l], l))
 FairSpec == Spec /\ Fair
 
 (* ------------------------------ properties ------------------------------- *)
@@ -374,13 +397,31 @@ KeysRight == Quiet => \A l \in InTable : ver[data].ent[key[l] + 1].l = l
 LockBalanced ==
   \A i \in Slots : lock[i] = Cardinality({h \in Handlers : hslot[h] = i /\ hpc[h] \in {"ptr", "iter", "wake", "dec"}})
 MutexOwned == \A t \in Threads : (mutex = t) <=>
-                 tpc[t] \in {"swap", "seen", "geninc", "check", "free", "r_sig", "r_unlock", "u_dfl", "u_unlock"}
+                 tpc[t] \in {"swap", "seen", "geninc", "free", "r_sig", "r_unlock", "u_dfl", "u_unlock"}
 \* a handler never waits (it may run on top of the thread that holds the write mutex)
-HandlerWaitFree == \A h \in Handlers : Active(h) => ENABLED HandlerStep(h)
+HandlerWaitFree == \A h \in Handlers : (Active(h) /\ Safe) => ENABLED HandlerStep(h)
 AliveBound == Cardinality(alive) <= 2
+
+\* control configuration (MC_Signal_ctl.cfg, one TLC run, -workers 1): each model mutation must violate the
+\* property it attacks.  CtlSeen is always TRUE; it prints the name of a mutation the first time a state
+\* violating its target is reached (register 20 + index); the check requires all names.
+CtlBroken ==
+  CASE mut = "nofilter" -> ~NoCross
+    [] mut = "firstonly" -> ~Delivered
+    [] mut = "dflalways" -> ~RegisteredImpliesHandler
+    [] mut = "nobarrier" -> ~Safe
+    [] mut = "nodfl" -> ~DispConsistent
+    [] mut = "norecheck" -> FALSE
+    [] OTHER -> FALSE
+CtlIdx == CASE mut = "nofilter" -> 21 [] mut = "firstonly" -> 22 [] mut = "dflalways" -> 23
+            [] mut = "nobarrier" -> 24 [] mut = "nodfl" -> 25 [] OTHER -> 26
+CtlInit == \A i \in 21..26 : TLCSet(i, 0)
+CtlSeen == (CtlBroken /\ TLCGet(CtlIdx) = 0) => (TLCSet(CtlIdx, 1) /\ PrintT(<<"CTL", mut>>))
+CtlSpec == CtlInit /\ Init /\ [][Next]_vars
 
 CallsReturn == \A t \in Threads : (tpc[t] # "idle") ~> (tpc[t] = "idle")
 HandlersReturn == \A h \in Handlers : Active(h) ~> (hpc[h] = "done")
 \* every delivered signal eventually completes every listener it found registered
-EventuallyCompletes == \A l \in Listeners : (flag[l] /\ lst[l] = "pend" /\ ~cancelled[l]) ~> (lst[l] = "done")
+EventuallyCompletes ==
+  \A l \in 1..MaxNL : (l \in Listeners /\ flag[l] /\ lst[l] = "pend" /\ ~cancelled[l]) ~> (l \notin Listeners \/ lst[l] = "done")
 =============================================================================
